@@ -57,6 +57,9 @@ var retKinds = []retKind{
 	{"unregistered", errPlain},
 	{"eof", freighter.EOF},
 	{"stream-closed", freighter.ErrStreamClosed},
+	{"eof-wrapped-with-message", errors.Wrap(freighter.EOF, "handler is done")},
+	{"eof-with-stack", errors.WithStack(freighter.EOF)},
+	{"custom-registered-wrapped", errors.Wrap(ftest.ErrCustom, "while handling")},
 }
 
 // ---- scripts
@@ -710,7 +713,7 @@ func main() {
 	r.Set("scripts_without_feasible_interleaving", infeasible)
 	r.Set("distinct_nontrivial", len(outcomes))
 	r.Set("exhaustive", skipped == 0)
-	r.Set("rule", fmt.Sprintf("scripts: every client op list over {Send, CloseSend, Receive} up to length %d (at most one CloseSend) x every handler op list over {Receive, Send} up to length %d x handler return in {nil, registered custom error, unregistered error, EOF, StreamClosed}, plus 18 scripts with a 300 kB request or response; interleavings: every merge in which each Receive is issued after the message it must return, or after the peer's CloseSend / return, has been issued; each executed on a fresh stream of the mock, WebSocket and gRPC transports; after the script the client drains and calls Receive three more times. distinct_nontrivial = distinct scripts executed", lc, ls))
+	r.Set("rule", fmt.Sprintf("scripts: every client op list over {Send, CloseSend, Receive} up to length %d (at most one CloseSend) x every handler op list over {Receive, Send} up to length %d x handler return in {nil, registered custom error, unregistered error, EOF, StreamClosed, EOF wrapped with a message / a stack, wrapped custom error}, plus 18 scripts with a 300 kB request or response; interleavings: every merge in which each Receive is issued after the message it must return, or after the peer's CloseSend / return, has been issued; each executed on a fresh stream of the mock, WebSocket and gRPC transports; after the script the client drains and calls Receive three more times. distinct_nontrivial = distinct scripts executed", lc, ls))
 	r.Sample(map[string]string{"script": scripts[len(scripts)/2].String()})
 	r.Assume("loopback TCP for WebSocket (fiber) and gRPC; the two sides are sequenced by the harness at operation granularity: timing inside an operation is the Go scheduler's and the kernel's; a Send issued after the handler returned may legitimately return nil or EOF")
 	fmt.Printf("C14: scripts=%d executions=%v skipped=%d\n", len(scripts), execs, skipped)
